@@ -311,6 +311,9 @@ func writeShard(completed bool) {
 // (thorough) cases in total over all shards.
 func Checks(q, th int) {
 	n := Pick(q, th)
+	if sc, err := strconv.ParseFloat(os.Getenv("VERIF_SCALE"), 64); err == nil && sc > 0 { // development aid: scale the case count
+		n = int(float64(n) * sc)
+	}
 	_, ns := Shard()
 	flag.Set("rapid.checks", strconv.Itoa(max(1, n/ns)))
 }
